@@ -191,3 +191,42 @@ def rule_delay_reset(prog):
                  "recorded event - the first one of a recording - carries the ticks accumulated before it, so its replay is delayed / a "
                  "tap becomes a hold")
     return res
+
+
+def rule_save_id(prog):
+    """R-DM-SAVE-ID (C19): a finished recording is saved under the id it was recorded for.
+
+    The functions of dynamic_macro.rs that end a recording (begin_record_macro when another recording is in progress,
+    stop_macro, record_press when the buffer is full) return the pair (id, events) of the recording that ended.
+    The id of the *action* that triggered the call can be a different one (`dynamic-macro-record 2` pressed while 1
+    is being recorded saves 1 and starts 2). Every `dynamic_macros.insert(id, events)` must take both from the same
+    returned pair."""
+    from kq.core import Resolver
+    from kq.gf2 import root_desc
+    res = RuleResult("R-DM-SAVE-ID", "dynamic_macros.insert takes the id and the events from the same returned recording", floor=3)
+    for f in prog.fns.values():
+        if f.crate != "kanata_state_machine" or f.derive:
+            continue
+        k = 0
+        for bi, t in f.calls():
+            if not (callee_name(t) or "").endswith("::insert") or len(t["args"]) < 3:
+                continue
+            if not (root_desc(f, t["args"][0]) or "").endswith(".dynamic_macros"):
+                continue
+            R = Resolver(f)
+            r1, r2 = R.root(t["args"][1]), R.root(t["args"][2])
+            same = r1[0] == "call" and r2[0] == "call" and r1[1][0] == r2[1][0]
+            src = (callee_name(r2[1][1]) or "").split("::")[-1] if r2[0] == "call" else r2[0]
+            ok = same and "dynamic_macro::" in (callee_name(r2[1][1]) or "")
+            key = "%s/insert%s" % (f.norm.split("::")[-1], "#%d" % k if k else "")
+            k += 1
+            res.fn(f)
+            res.inst(key, where="%s:%s" % (f.file, t.get("ln")), events_from=src, id_from_same_result=same, ok=ok)
+            res.oblige(ok)
+            if not ok:
+                res.viol(key, "%s:%s" % (f.file, t.get("ln")),
+                         "%s saves a finished recording (events returned by %s) under an id that does not come from the same returned "
+                         "pair. The id of the action that was pressed can differ from the id being recorded (record 2 pressed while "
+                         "recording 1): the events typed for one macro are stored under the other's id and replaying either plays "
+                         "the wrong keys" % (f.norm.split("::")[-1], src))
+    return res
